@@ -392,7 +392,7 @@ fn scenario_inner() -> Vec<Op> {
 }
 
 pub fn run(c: &Ctx) {
-    c.set_rule("(a) matrix: from a fixed mixed scenario (dirs, files with different modes/owners/bytes, link to file, link to dir, dangling link, cwd below root) every call form of the finite alphabet (every trait method incl. builder variants, builders executed after a cwd change, and handles) on every path of the scenario (absolute and cwd-relative; ordered pairs for copy/move/symlink) is executed on a plain Memfs, through Vfs::Memfs(..) and through Memfs::upcast(): identical result (value / error kind) and identical dump-derived tree after every call; every Entry accessor (path, alt, rel, *_buf, file_name, follow(true/false/twice), following, is_*, mode, upcast, clone) of the inner MemfsEntry vs the VfsEntry. (b) the same matrix on the real-filesystem backend: the Stdfs unit struct (trait impl) vs Vfs::Stdfs vs the associated functions Stdfs::<name> (through a purely delegating adapter) on triplet tmpfs directories, results and std::fs-observed trees equal, builders also split into creation and exec with resolvable and unresolvable arguments (the stage of a refusal is compared); plus every program of length 4 (quick) / 5 (thorough) over {open append x2 handles, open write, write x2, flush, drop x2, read} on one file with a tree observation after every step (buffering inside the wrapper would show). (c) the C01 random histories (with persistent write/append handles) executed the three Memfs ways. Non-trivial = call whose result is not an error and not 'false' on at least one path (a mis-routed arm would differ); distinct by (scenario prefix, call).");
+    c.set_rule("(a) matrix: from a fixed mixed scenario (dirs, files with different modes/owners/bytes, link to file, link to dir, dangling link, cwd below root) every call form of the finite alphabet (every trait method incl. builder variants, builders executed after a cwd change, and handles) on every path of the scenario (absolute and cwd-relative; ordered pairs for copy/move/symlink) is executed on a plain Memfs, through Vfs::Memfs(..) and through Memfs::upcast(): identical result (value / error kind) and identical dump-derived tree after every call; every Entry accessor (path, alt, rel, *_buf, file_name, follow(true/false/twice), following, is_*, mode, upcast, clone) of the inner MemfsEntry vs the VfsEntry. (b) the same matrix on the real-filesystem backend: the Stdfs unit struct (trait impl) vs Vfs::Stdfs vs the associated functions Stdfs::<name> (through a purely delegating adapter) on triplet tmpfs directories, results and std::fs-observed trees equal, builders also split into creation and exec with resolvable and unresolvable arguments (the stage of a refusal is compared); plus every program of length 4 (quick) / 5 (thorough) over {open append x2 handles, open write, write x2, flush, drop x2, read} on one file with a tree observation after every step (buffering inside the wrapper would show). (c) every sequence of 3 calls over the 67-form alphabet of the C01 history sweep after 3 seed prefixes (quick: a seeded quarter) and the C01 random histories (with persistent write/append handles) executed the three Memfs ways. Non-trivial = call whose result is not an error and not 'false' on at least one path (a mis-routed arm would differ); distinct by (scenario prefix, call).");
     c.assume("Stdfs twin runs use absolute paths inside a sandbox (set_cwd excluded: process-global)");
     let base = scenario();
     let paths = ["/d/gw", "/d/gx", "/", "/d", "/d/f", "/d/sub", "/d/sub/g", "/exe", "/lf", "/ld", "/dang", "/nope", "f", "sub/g", "..", "../lf", "/d/new", "/new/deep"];
@@ -527,6 +527,8 @@ pub fn run(c: &Ctx) {
         c.judge("stdfs-twin-prog", &prog, check_stdfs_twin_prog(&prog));
     });
     crate::sandbox::cleanup();
+    // every short history, the four ways (a wrapper that answers from what it remembers of earlier calls)
+    crate::hsweep::history_sweep(c, 3, 1303, c.tier.pick(4, 1), "four-ways", check_ops);
     // (b) random histories
     let cfg = GenCfg { names: NAMES3, avoid_through_link: false, plain_spelling: false, wild: true, handles: true };
     let n = c.tier.pick(20_000, 200_000);
